@@ -62,7 +62,7 @@ def generate(rng, tier, shard, nshards):
                     yield lops.event("semiring", {"type": tp, "fn": "star", "a": a}, site=f"{tp}.star", feat="star")
                 k += 1
         for a, b in itertools.product(C, C):
-            for fn in ("add", "mul"):
+            for fn in ("add", "mul", "iadd", "imul"):
                 for fresh, fresh2 in ((True, True), (False, False)) if tp in ("Entropy", "Boolean", "Expectation") else ((True, True),):
                     if k % nshards == shard:
                         yield lops.event("semiring", {"type": tp, "fn": fn, "a": a, "b": b, "fresh": fresh, "fresh2": fresh2},
